@@ -492,8 +492,10 @@ class TrainRun:
         self.monitor = plan.get("monitor", False)
         self.iter_k = None
         self.aborted = None
+        self.log_events = []
 
     def V(self, clause, detail, site=None):
+        clause = self.plan.get("alias", {}).get(clause, clause)
         self.res.violate(clause, site or self.site, detail)
 
     # -- construction
@@ -531,6 +533,7 @@ class TrainRun:
             self.snapshot(("reset",), self.iter_k)
 
     def on_log(self, ev):
+        self.log_events.append((self.iter_k, ev))
         if ev[0] == "epoch":
             key, mod = ev[1], ev[2]
             name = self.epoch_key_to_comp(key)
